@@ -326,6 +326,15 @@ type ValidX struct {
 
 var validatorCalls int
 
+// bumpValidator counts a validator invocation (atomically in the concurrent family, see conc.go).
+func bumpValidator() {
+	if concMode {
+		concValidatorCalls.Add(1)
+		return
+	}
+	validatorCalls++
+}
+
 type Outer struct {
 	P  Prims       `serix:""`
 	S  Slices      `serix:""`
@@ -420,31 +429,31 @@ func newUniverse() *universe {
 	must(api.RegisterTypeSettings(VShapeMap{}, ts.WithLengthPrefixType(lp8)))
 	// syntactic validators: they accept everything except one rare value, and count their calls
 	must(api.RegisterValidator(Point{}, func(_ context.Context, p Point) error {
-		validatorCalls++
+		bumpValidator()
 		if p.X == 0x0BADF00D {
 			return errors.New("Point: rejected by validator")
 		}
 		return nil
 	}))
 	must(api.RegisterValidator(&VItem{}, func(_ context.Context, v *VItem) error {
-		validatorCalls++
+		bumpValidator()
 		if v == nil || v.A == 0xEE {
 			return errors.New("VItem: rejected by validator")
 		}
 		return nil
 	}))
-	must(api.RegisterValidator(Circle{}, func(_ context.Context, c Circle) error { validatorCalls++; return nil }))
-	must(api.RegisterValidator(Coded{}, func(_ context.Context, c Coded) error { validatorCalls++; return nil }))
-	must(api.RegisterValidator(Key4{}, func(_ context.Context, k Key4) error { validatorCalls++; return nil }))
-	must(api.RegisterValidator(U32Arr{}, func(_ context.Context, a U32Arr) error { validatorCalls++; return nil }))
-	must(api.RegisterValidator(U16List{}, func(_ context.Context, l U16List) error { validatorCalls++; return nil }))
-	must(api.RegisterValidator(MapU8{}, func(_ context.Context, m MapU8) error { validatorCalls++; return nil }))
-	must(api.RegisterValidator(Num(0), func(_ context.Context, n Num) error { validatorCalls++; return nil }))
-	must(api.RegisterValidator(NStr(""), func(_ context.Context, n NStr) error { validatorCalls++; return nil }))
-	must(api.RegisterValidator(Blob{}, func(_ context.Context, b Blob) error { validatorCalls++; return nil }))
-	must(api.RegisterValidator(ID8{}, func(_ context.Context, b ID8) error { validatorCalls++; return nil }))
-	must(api.RegisterValidator(PayA{}, func(_ context.Context, b PayA) error { validatorCalls++; return nil }))
-	must(api.RegisterValidator(Valid{}, func(_ context.Context, v Valid) error { validatorCalls++; return nil }))
+	must(api.RegisterValidator(Circle{}, func(_ context.Context, c Circle) error { bumpValidator(); return nil }))
+	must(api.RegisterValidator(Coded{}, func(_ context.Context, c Coded) error { bumpValidator(); return nil }))
+	must(api.RegisterValidator(Key4{}, func(_ context.Context, k Key4) error { bumpValidator(); return nil }))
+	must(api.RegisterValidator(U32Arr{}, func(_ context.Context, a U32Arr) error { bumpValidator(); return nil }))
+	must(api.RegisterValidator(U16List{}, func(_ context.Context, l U16List) error { bumpValidator(); return nil }))
+	must(api.RegisterValidator(MapU8{}, func(_ context.Context, m MapU8) error { bumpValidator(); return nil }))
+	must(api.RegisterValidator(Num(0), func(_ context.Context, n Num) error { bumpValidator(); return nil }))
+	must(api.RegisterValidator(NStr(""), func(_ context.Context, n NStr) error { bumpValidator(); return nil }))
+	must(api.RegisterValidator(Blob{}, func(_ context.Context, b Blob) error { bumpValidator(); return nil }))
+	must(api.RegisterValidator(ID8{}, func(_ context.Context, b ID8) error { bumpValidator(); return nil }))
+	must(api.RegisterValidator(PayA{}, func(_ context.Context, b PayA) error { bumpValidator(); return nil }))
+	must(api.RegisterValidator(Valid{}, func(_ context.Context, v Valid) error { bumpValidator(); return nil }))
 
 	add := func(name string, zero any, json bool) {
 		t := reflect.TypeOf(zero)
